@@ -15,7 +15,7 @@ clang $F -UNDEBUG -fsanitize=address,undefined $here/design_alloc.c $S -o $d/all
 export ASAN_OPTIONS=detect_leaks=0 MALLOC_PERTURB_=165
 for a in f13 f9 f15 f16; do echo "=== tables $a"; $d/tables $a 2>&1 | head -8 || true; done
 echo "=== spki"; $d/spki
-for a in f1 f2 f3 f6 f7 f8 f17; do echo "=== transport $a"; $d/transport $a 2>/dev/null | tail -n +4; done
+for a in f1 f2 f3 f6 f7 f8 f17 f18; do echo "=== transport $a"; $d/transport $a 2>/dev/null | tail -n +4; done
 for k in 1 35; do echo "=== alloc f12 $k"; $d/alloc f12 $k 2>&1 | grep -E "F12|SEGV|#[0-2] " | head -4 || true; done
 echo "=== alloc f14"; $d/alloc f14 2>&1 | head -3
 clang $F -DNDEBUG $here/design_bgpsec.c $S -o $d/bgpsec $L
